@@ -222,27 +222,49 @@ Lemma str_hole_enum_witness :
   escape_js (scanned (L "a""b")) = L "a\\" /\ hole_ok (HStr DQ) (escape_js (scanned (L "a""b"))) = true.
 Proof. vm_compute. split; reflexivity. Qed.
 
-(* property keys (ts_key filter). The filter decides with char::is_alphanumeric, which accepts category No
-   (superscripts, subscripts, fractions, circled numbers): such a name is printed bare although it is not an
-   ECMAScript identifier name. That is the class kf_key_other_number; outside it, for EVERY byte string the printed
-   key is an identifier name or a well-formed double-quoted literal; likewise the member access *)
-Definition kf_key_other_number (k : str) : bool := rust_ident_name k && negb (is_ident_name k).
-Lemma key_chunk_ok k : kf_key_other_number k = false -> holes_ok [key_chunk k] = true.
-Proof. unfold kf_key_other_number, holes_ok, key_chunk. intros Hk. destruct (rust_ident_name k) eqn:E; cbn [holes flat_map app forallb fst snd].
-  - cbn [andb] in Hk. apply negb_false_iff in Hk. cbn [hole_ok]. unfold key_text_ok. rewrite Hk. reflexivity.
+(* property keys (ts_key filter, after the repair of C01-key-other-number): whatever the filter prints bare is an
+   ECMAScript identifier name, so for EVERY byte string the printed key is an identifier name or a well-formed
+   double-quoted literal; likewise the member access *)
+Lemma uni_walk_mono ps pc ps' pc' :
+  (forall cp, ps cp = true -> ps' cp = true) -> (forall cp, pc cp = true -> pc' cp = true) ->
+  forall n s first, List.length s <= n -> uni_walk ps pc first s = true -> uni_walk ps' pc' first s = true.
+Proof. intros Hs Hc. induction n as [|n IH]; intros s first Hn H.
+  - destruct s; [reflexivity|cbn in Hn; lia].
+  - destruct s as [|a r]; [reflexivity|]. cbn [uni_walk] in *. cbn [List.length] in Hn.
+    assert (forall cp, (if first then ps cp else pc cp) = true -> (if first then ps' cp else pc' cp) = true) as Hok
+      by (intros cp; destruct first; auto).
+    destruct (bN a <? 128)%N; [apply IH; [lia|exact H]|].
+    destruct (bN a <? 194)%N; [discriminate|].
+    destruct (bN a <? 224)%N.
+    { destruct r as [|b r']; [discriminate|]. apply andb_true_iff in H as [H H3]. apply andb_true_iff in H as [H1 H2].
+      rewrite H1, (Hok _ H2). cbn [andb]. apply IH; [cbn [List.length] in Hn; lia|exact H3]. }
+    destruct (bN a <? 240)%N.
+    { destruct r as [|b [|c r']]; try discriminate. apply andb_true_iff in H as [H H4]. apply andb_true_iff in H as [H H3].
+      apply andb_true_iff in H as [H1 H2]. rewrite H1, H2, (Hok _ H3). cbn [andb]. apply IH; [cbn [List.length] in Hn; lia|exact H4]. }
+    destruct r as [|b [|c [|d r']]]; try discriminate. apply andb_true_iff in H as [H H5]. apply andb_true_iff in H as [H H4].
+    apply andb_true_iff in H as [H H3]. apply andb_true_iff in H as [H1 H2]. rewrite H1, H2, H3, (Hok _ H4). cbn [andb].
+    apply IH; [cbn [List.length] in Hn; lia|exact H5]. Qed.
+Lemma rust_alnum_continue cp : rust_alnum_cp cp = true -> id_continue_cp cp = true.
+Proof. unfold rust_alnum_cp, id_continue_cp. intros H. apply orb_true_iff in H as [H|H]; [rewrite H; reflexivity|].
+  apply orb_true_iff. right. unfold in_ranges in *. apply existsb_exists in H as [r [Hin Hr]]. apply existsb_exists.
+  exists r. split; [|exact Hr]. destruct Hin as [<-|[]]. unfold id_continue_extra. cbn [In]. auto 10. Qed.
+Lemma rust_ident_is_ident k : rust_ident_name k = true -> is_ident_name k = true.
+Proof. unfold rust_ident_name, is_ident_name, uni_ok. intros H. apply andb_true_iff in H as [H1 H2]. rewrite H1. cbn [andb].
+  apply (uni_walk_mono rust_alpha_cp rust_alnum_cp id_start_cp id_continue_cp) with (n := List.length k); auto.
+  apply rust_alnum_continue. Qed.
+Lemma key_chunk_ok k : holes_ok [key_chunk k] = true.
+Proof. unfold holes_ok, key_chunk. destruct (rust_ident_name k) eqn:E; cbn [holes flat_map app forallb fst snd].
+  - cbn [hole_ok]. unfold key_text_ok. rewrite (rust_ident_is_ident _ E). reflexivity.
   - rewrite str_hole_message. reflexivity. Qed.
-Lemma member_access_ok k : kf_key_other_number k = false -> holes_ok (member_access k) = true.
-Proof. unfold kf_key_other_number, holes_ok, member_access. intros Hk. destruct (rust_ident_name k) eqn:E; cbn [holes flat_map app forallb fst snd F].
-  - cbn [andb] in Hk. apply negb_false_iff in Hk. cbn [hole_ok]. unfold key_text_ok. rewrite Hk. reflexivity.
+Lemma member_access_ok k : holes_ok (member_access k) = true.
+Proof. unfold holes_ok, member_access. destruct (rust_ident_name k) eqn:E; cbn [holes flat_map app forallb fst snd F].
+  - cbn [hole_ok]. unfold key_text_ok. rewrite (rust_ident_is_ident _ E). reflexivity.
   - rewrite str_hole_message. reflexivity. Qed.
-(* ASCII names are never in the class *)
-Lemma key_class_ascii k : forallb ascii_byte k = true -> kf_key_other_number k = false.
-Proof. intros H. unfold kf_key_other_number, rust_ident_name, is_ident_name, uni_ok. rewrite !(uni_ascii _ _ _ _ H), !andb_true_r.
-  destruct (is_ts_identifier k); reflexivity. Qed.
-(* witness of the class: the rename m followed by SUPERSCRIPT TWO (bytes C2 B2) *)
+(* the old witness of C01-key-other-number: the rename m followed by SUPERSCRIPT TWO (bytes C2 B2) is quoted now;
+   a decimal digit of another script after a letter is quoted as well (more than necessary, always valid) *)
 Definition m_squared : str := ["m"%char; ascii_of_nat 194; ascii_of_nat 178].
-Lemma key_chunk_refuted : kf_key_other_number m_squared = true /\ key_chunk m_squared = Hole HKey m_squared /\ hole_ok HKey m_squared = false /\
-  bad_class HKey m_squared = Some "C01-key-other-number"%string.
+Lemma key_chunk_number_witness :
+  key_chunk m_squared = Hole (HStr DQ) m_squared /\ holes_ok [key_chunk m_squared] = true /\ hole_ok HKey m_squared = false.
 Proof. vm_compute. repeat split. Qed.
 Lemma key_chunk_witnesses :
   key_chunk (serialized (L "full_name") (Some (scanned (L "full-name"))) None (L "snake_case")) = Hole (HStr DQ) (L "full-name") /\
